@@ -101,6 +101,8 @@ def symbolic_keys(site: int, k: str, allow: bool) -> bool:
 JUNK = [None, 0, -1, 3.5, "", "x", True, [], [0], ["x"], {}, {"a": 1}, [{"a": "b"}], {"a": {"b": 1}}, [[1]], {"": ""}, [{"": ""}], [None], {"a": None},
         False, "toplevel-property-extension", {"extension_type": "toplevel-property-extension"}, {"x-a-ext": {"extension_type": "toplevel-property-extension"}},
         {"extension-definition--311b2d2d-f010-4473-83ec-1edf84858f4c": 5}, {"extension-definition--311b2d2d-f010-4473-83ec-1edf84858f4c": {"extension_type": 7}},
+        # marking-shaped junk (selectors of another kind), also for types that do not define granular_markings
+        [{"selectors": [5]}], [{"selectors": 5, "marking_ref": "x"}], [{"selectors": [None, {}, ["name"]], "lang": 5}], [{"marking_ref": ["x"], "selectors": "name"}],
         # text that is hostile to message formatting, as value and as dictionary key
         "{x}", "%s %(a)s", {"{x}": "v"}, {"{0.x}": 1}, {"{1}": [1]}, {"%s": 1}, {"%(a)s": {"{": "}"}}, [{"{x}": "{y}"}], {"a{}b": ["{0}"]}, ["{0!r:>{1}}"]]
 # values nested deeper than the interpreter's recursion limit (kept out of JUNK itself: repr/deepcopy/json.dumps of them recurse too)
@@ -127,7 +129,7 @@ def _cases():
             continue
         if cat == "observables" and ver == "2.0":
             continue
-        slots = sorted(set(cls._properties) | {"extensions", "x_custom", "spec_version", "custom_properties", ""})
+        slots = sorted(set(cls._properties) | {"extensions", "x_custom", "spec_version", "custom_properties", "", "granular_markings", "object_marking_refs"})
         for sl in slots:
             out.append((ver, cat, name, sl, base))
     # nested sites
@@ -370,3 +372,40 @@ def run_pair_case(ci, k, allow):
         except Exception:  # noqa: BLE001
             return False
     return reg_snapshot() == before
+
+
+# ---- a failed construction through a factory / environment leaves the factory as it was
+def factory_after_failure(ji: int, which: int, env: bool) -> bool:
+    """
+    pre: 0 <= ji < NJ and 0 <= which <= 2
+    post: _
+    """
+    ji, which, env = pick(ji, NJ), pick(which, 3), pickb(env)
+    with Native():
+        ok = run_factory_case(ji, which, env)
+    V.reached()
+    return ok
+
+
+def run_factory_case(ji, which, env):
+    from stix2.environment import Environment, ObjectFactory
+    junk = JUNK[ji] if not (isinstance(JUNK[ji], str) and JUNK[ji] in DEEP) else DEEP[JUNK[ji]][0]
+    refs = [{"source_name": "d", "external_id": "2"}]
+    marks = ["marking-definition--613f2e26-407d-48c7-9eca-b8e91df99dc9"]
+    fac = ObjectFactory(created_by_ref="identity--311b2d2d-f010-4473-83ec-1edf84858f4c", external_references=refs, object_marking_refs=marks)
+    api = Environment(factory=fac) if env else fac
+    kw = dict(name="x", identity_class="individual")
+    strip = lambda o: {k: v for k, v in json.loads(o.serialize()).items() if k not in ("id", "created", "modified")}   # noqa: E731
+    before = strip(api.create(stix2.v21.Identity, **kw))
+    slot = ("external_references", "object_marking_refs", "created_by_ref")[which]
+    try:
+        api.create(stix2.v21.Identity, **dict(kw, **{slot: junk}))
+    except ALLOWED:
+        pass
+    except Exception:  # noqa: BLE001
+        return False
+    try:
+        after = strip(api.create(stix2.v21.Identity, **kw))
+    except Exception:  # noqa: BLE001
+        return False                   # valid input is refused after a failed construction
+    return after == before and refs == [{"source_name": "d", "external_id": "2"}] and marks == ["marking-definition--613f2e26-407d-48c7-9eca-b8e91df99dc9"]
